@@ -375,6 +375,7 @@ pub fn gen_case(case: &Value) -> Value {
     };
     let mut ts = TypeSpace::new(&settings);
     let _ = typify_impl::verif::take_pre_cycles();
+    let _ = typify_impl::verif::take_name_reuse();
     let mut steps = vec![];
     let empty = vec![];
     for st in case["steps"].as_array().unwrap_or(&empty) {
@@ -382,8 +383,10 @@ pub fn gen_case(case: &Value) -> Value {
         steps.push(r);
     }
     let pre = typify_impl::verif::take_pre_cycles();
+    // assign_type resolved a named type to an existing type of that name although the two differ
+    let reuse = typify_impl::verif::take_name_reuse();
     let all_ok = steps.iter().all(|s| s["r"] == "ok");
-    let mut out = json!({"r":"done","steps":steps,"all_ok":all_ok});
+    let mut out = json!({"r":"done","steps":steps,"all_ok":all_ok,"name_reuse":reuse});
     if all_ok || case["render_anyway"].as_bool().unwrap_or(false) {
         out["render"] = render(&ts, case["code"].as_bool().unwrap_or(true));
         out["dump"] = ts.verif_dump();
